@@ -8,7 +8,7 @@ CC   ?= gcc
 CLANGXX ?= clang++
 B := build
 ABSB := $(abspath $(B))
-COMMON := -std=c++17 -I$(INC) -Isim -g -Wall -Wno-unused-function -Wno-unused-variable -DALLENABY_RLBOX_VERIF -DGUESTLIB_DIR='"$(ABSB)"'
+COMMON := -std=c++17 -I$(INC) -Isim -g -Wall -Wno-unused-function -Wno-unused-variable -Wno-sign-compare -Wno-unused-but-set-variable -DALLENABY_RLBOX_VERIF -DGUESTLIB_DIR='"$(ABSB)"'
 PLAIN := $(COMMON) -O1
 ASAN  := $(COMMON) -O1 -fsanitize=address -fno-omit-frame-pointer -DSIM_BUILD_NAME='"asan"'
 TLS   := $(COMMON) -O1 -DRLBOX_EMBEDDER_PROVIDES_TLS_STATIC_VARIABLES -DSIM_BUILD_NAME='"tls"'
